@@ -865,6 +865,10 @@ class Interp:
             return st
         if len(e["elems"]) == 1:
             return self.ev(e["elems"][0], env)
+        n_ = str(ty.get("n", ""))
+        if n_.endswith("]") and "[" in n_:
+            # a small built-in array initialised element by element (tables of flags or constants)
+            return ("carray", [self.ev(x, env) for x in e["elems"]])
         raise Unsupported("init list")
 
     def e_lambda(self, e, env):
@@ -1432,6 +1436,26 @@ class Interp:
                         self.range_count = None
                     return ("iter", dst, sp.expand(o0 + n_el))
                 raise Unsupported("adjacent_difference on unsupported ranges (line %s)" % e.get("line"))
+            if nm in ("begin", "end", "cbegin", "cend") and len(args) == 1 and "obj" not in e:
+                a = self.ev(args[0], env)
+                if isinstance(a, tuple) and a and a[0] == "carray":
+                    return ("citer", a, 0 if nm in ("begin", "cbegin") else len(a[1]))
+            if nm == "count" and len(args) == 3:
+                first, last = self.ev(args[0], env), self.ev(args[1], env)
+                val = self.ev(args[2], env)
+                if all(isinstance(x, tuple) and x and x[0] == "citer" for x in (first, last)) and first[1] is last[1]:
+                    cnt = Integer(0)
+                    for x in first[1][1][first[2]:last[2]]:
+                        eq = x if val == sp.true else (sp.Not(x) if val == sp.false else sp.Eq(x, val))
+                        d_ = True if eq == sp.true else False if eq == sp.false else None
+                        if d_ is None and self.path_oracle is not None and isinstance(eq, sp.Basic):
+                            d_ = self.path_oracle(e, eq, self)
+                        if d_ is None:
+                            cnt = cnt + sp.Piecewise((1, eq), (0, True))
+                        elif d_:
+                            cnt = cnt + 1
+                    return cnt
+                raise Unsupported("std::count on unsupported ranges (line %s)" % e.get("line"))
             if nm == "accumulate" and len(args) == 3:
                 first, last = self.ev(args[0], env), self.ev(args[1], env)
                 init = self.ev(args[2], env)
